@@ -260,4 +260,59 @@ example : JTree.Reorder
   .trans (.congr _ _ (.swap ..) (.refl _)) (.swap ..)
 example : ([[99], [97], [98]] : List Key).Perm [[97], [98], [99]] := by decide
 
+/-! ## Iterator forms of map iteration (extractor round)
+
+The site list is no longer limited to `range` statements: `maps.Keys/Values/All/…`,
+`slices.Collect(maps.…)`, `slices.Sorted(maps.Keys(..))`, `reflect` `MapKeys`/`MapRange`,
+`sync.Map.Range` and `range` over a function / over an expression of unknown type are
+sites too (extract/maprange.go).  A new such site is `c10Unreviewed` (above). -/
+
+/-- Regenerated obligation: every reviewed site of corpus/C10/map_range_sites.json is still
+found.  A reviewed loop that DISAPPEARS (deleted, or rewritten in another form such as
+`slices.Collect(maps.Keys(m))`) breaks this until a reviewer moves the entry to
+`resolved_sites` with the outcome. -/
+theorem no_reviewed_site_vanished : Gen.c10Vanished = [] := by decide
+
+/-- The recognisers are not vacuous: on the extractor's embedded sample package every form
+is found, both with full type information (`typed`) and when no import resolves at all
+(`untyped`: syntactic recognition through the import table; only `sync.Map.Range` needs the
+receiver type).  Entry = `mode function:form expression [auto class]`. -/
+theorem iterator_forms_recognised : Gen.c10IterFormsRecognised = [
+    "typed T.Keys:maps.Keys maps.Keys(t.m) [other]",
+    "typed var pkgLevel:maps.Keys slices.Collect(maps.Keys(m)) [other]",
+    "typed f:maps.Keys slices.Collect(maps.Keys(m)) [other]",
+    "typed f:maps.Keys slices.Sorted(maps.Keys(m)) [keys-collected-then-sorted]",
+    "typed f:maps.Keys slices.SortedFunc(maps.Keys(m), strings.Compare) [keys-collected-then-sorted]",
+    "typed f:maps.Values slices.Collect(maps.Values(m)) [keys-collected-then-sorted]",
+    "typed f:maps.All maps.All(m) [other]",
+    "typed f:maps.All maps.Collect(maps.All(m)) [map-or-set-insert]",
+    "typed f:maps.All maps.Insert(e, maps.All(m)) [map-or-set-insert]",
+    "typed f:reflect.MapKeys v.MapKeys() [other]",
+    "typed f:reflect.MapRange v.MapRange() [other]",
+    "typed f:range-func t.Keys() [other]",
+    "typed f:maps.Clone maps.Clone(m) [map-or-set-insert]",
+    "typed f:sync.Map.Range sm.Range [other]",
+    "typed f:range m [other]",
+    "typed f:maps.Keys maps.Keys [other]",
+    "typed f:maps.Keys slices.Sorted(maps.Keys(m)) [keys-collected-then-sorted]",
+    "untyped T.Keys:maps.Keys maps.Keys(t.m) [other]",
+    "untyped var pkgLevel:maps.Keys slices.Collect(maps.Keys(m)) [other]",
+    "untyped f:maps.Keys slices.Collect(maps.Keys(m)) [other]",
+    "untyped f:maps.Keys slices.Sorted(maps.Keys(m)) [keys-collected-then-sorted]",
+    "untyped f:maps.Keys slices.SortedFunc(maps.Keys(m), strings.Compare) [keys-collected-then-sorted]",
+    "untyped f:maps.Values slices.Collect(maps.Values(m)) [keys-collected-then-sorted]",
+    "untyped f:maps.All maps.All(m) [other]",
+    "untyped f:maps.All maps.Collect(maps.All(m)) [map-or-set-insert]",
+    "untyped f:maps.All maps.Insert(e, maps.All(m)) [map-or-set-insert]",
+    "untyped f:reflect.MapKeys v.MapKeys() [other]",
+    "untyped f:reflect.MapRange v.MapRange() [other]",
+    "untyped f:range-untyped t.Keys() [other]",
+    "untyped f:maps.Clone maps.Clone(m) [map-or-set-insert]",
+    "untyped f:range m [other]",
+    "untyped f:maps.Keys maps.Keys [other]",
+    "untyped f:maps.Keys slices.Sorted(maps.Keys(m)) [keys-collected-then-sorted]"] := by rfl
+
+/-- the vanished-site obligation is about a non-empty reviewed list -/
+example : ["core/fork.go:ForkId.expandStaticForkPart:range keyMap#2"] ≠ ([] : List String) := by decide
+
 end Props.C10
